@@ -125,6 +125,12 @@ pub enum Unit {
     /// reference probes; group 0 = no import, g >= 1 = import path form g-1
     /// `impkind`: restricted to one import kind (index into IMPKINDS)
     Probes { tree: usize, placement: u32, site: usize, kind: Kind, group: usize, impkind: Option<usize> },
+    /// one extra file / directory / FileSpec child with a name that is no
+    /// module name (`modnames.rs`)
+    ModNames { tree: usize, placement: u32 },
+    /// type paths in generic declarations and in function signatures
+    /// (`typos.rs`)
+    TypePos { tree: usize, placement: u32, site: usize },
 }
 
 pub fn n_trees(tier: Tier) -> usize {
@@ -176,7 +182,9 @@ pub fn unit_table(tier: Tier) -> Vec<Unit> {
         let n = tree(t).n();
         for p in 0..(1u32 << n) {
             v.push(Unit::Lookup { tree: t, placement: p });
+            v.push(Unit::ModNames { tree: t, placement: p });
             for site in 0..n {
+                v.push(Unit::TypePos { tree: t, placement: p, site });
                 for kind in KINDS {
                     for group in 0..=n_pforms(tier) {
                         if !kind_has_group(tier, kind, group) {
